@@ -11,20 +11,38 @@ namespace RRule
 
 inductive Family where
   | daily | weekly | yearlyMonthly | monthlyNth | yearlyNth | yearlyBymonthNth | yearlyEaster | yearlyWeekno
-  | monthlyWeekno
-  | hourly | hourlyByhour | minutely | minutelyByminute | minutelyByhour | secondly
+  | monthlyWeekno | weeklyWeekno
+  | hourly | hourlyByhour | minutely | minutelyByminute | minutelyByhour | minutelyByhm | secondly | secondlyByhm | secondlyBysecond
+  | dailyE | hourlyE | hourlyByhourE | minutelyE | minutelyByminuteE | minutelyByhourE | minutelyByhmE
+  | secondlyE | secondlyByhmE | secondlyBysecondE | monthlyEaster | weeklyEaster
+  | monthlyNthWeekno | yearlyNthWeekno | yearlyBymonthNthWeekno
+  | monthlyNthEaster | yearlyNthEaster | yearlyBymonthNthEaster | yearlyWeeknoEaster
   deriving Repr, DecidableEq, Inhabited
 
 def Family.name : Family → String
   | .daily => "daily" | .weekly => "weekly" | .yearlyMonthly => "yearly_monthly" | .monthlyNth => "monthly_nth"
   | .yearlyNth => "yearly_nth" | .yearlyBymonthNth => "yearly_bymonth_nth" | .yearlyEaster => "yearly_easter"
-  | .yearlyWeekno => "yearly_weekno" | .monthlyWeekno => "monthly_weekno" | .hourly => "hourly" | .hourlyByhour => "hourly_byhour"
-  | .minutely => "minutely" | .minutelyByminute => "minutely_byminute" | .minutelyByhour => "minutely_byhour" | .secondly => "secondly"
+  | .yearlyWeekno => "yearly_weekno" | .monthlyWeekno => "monthly_weekno" | .weeklyWeekno => "weekly_weekno" | .hourly => "hourly" | .hourlyByhour => "hourly_byhour"
+  | .minutely => "minutely" | .minutelyByminute => "minutely_byminute" | .minutelyByhour => "minutely_byhour" | .minutelyByhm => "minutely_byhour_byminute" | .secondly => "secondly"
+  | .secondlyByhm => "secondly_byhour_byminute" | .secondlyBysecond => "secondly_bysecond"
+  | .dailyE => "daily_easter" | .hourlyE => "hourly_easter" | .hourlyByhourE => "hourly_byhour_easter"
+  | .minutelyE => "minutely_easter" | .minutelyByminuteE => "minutely_byminute_easter"
+  | .minutelyByhourE => "minutely_byhour_easter" | .minutelyByhmE => "minutely_byhour_byminute_easter"
+  | .secondlyE => "secondly_easter" | .secondlyByhmE => "secondly_byhour_byminute_easter"
+  | .secondlyBysecondE => "secondly_bysecond_easter" | .monthlyEaster => "monthly_easter" | .weeklyEaster => "weekly_easter"
+  | .monthlyNthWeekno => "monthly_nth_weekno" | .yearlyNthWeekno => "yearly_nth_weekno"
+  | .yearlyBymonthNthWeekno => "yearly_bymonth_nth_weekno"
+  | .monthlyNthEaster => "monthly_nth_easter" | .yearlyNthEaster => "yearly_nth_easter"
+  | .yearlyBymonthNthEaster => "yearly_bymonth_nth_easter" | .yearlyWeeknoEaster => "yearly_weekno_easter"
 
 def Family.all : List Family :=
   [.daily, .weekly, .yearlyMonthly, .monthlyNth, .yearlyNth, .yearlyBymonthNth, .yearlyEaster, .yearlyWeekno,
-   .monthlyWeekno,
-   .hourly, .hourlyByhour, .minutely, .minutelyByminute, .minutelyByhour, .secondly]
+   .monthlyWeekno, .weeklyWeekno,
+   .hourly, .hourlyByhour, .minutely, .minutelyByminute, .minutelyByhour, .minutelyByhm, .secondly, .secondlyByhm, .secondlyBysecond,
+   .dailyE, .hourlyE, .hourlyByhourE, .minutelyE, .minutelyByminuteE, .minutelyByhourE, .minutelyByhmE,
+   .secondlyE, .secondlyByhmE, .secondlyBysecondE, .monthlyEaster, .weeklyEaster,
+   .monthlyNthWeekno, .yearlyNthWeekno, .yearlyBymonthNthWeekno,
+   .monthlyNthEaster, .yearlyNthEaster, .yearlyBymonthNthEaster, .yearlyWeeknoEaster]
 
 /-- the optional list is given, non-empty, and satisfies `P` -/
 def someWith {α} (o : Option (List α)) (P : List α → Prop) : Prop :=
@@ -72,11 +90,61 @@ instance (a : Args) : Decidable (wArgOk a) := by unfold wArgOk; exact inferInsta
 
 /-- MINUTELY with BYHOUR: some minute of the grid (orbit of the start under `+INTERVAL`, which repeats after at most
     1440 steps) falls in a listed hour — what a `__construct_byset`-style search over the grid would find.  On the
-    complement the rule is empty and `_iter` raises ValueError at the first `next()` (D-C01g). -/
+    complement the rule is empty and `_iter` raises ValueError at the first `next()` (allowed by the property). -/
 def reachableHourM (a : Args) : Prop :=
   (List.range 1440).any (fun j =>
     (a.byhour.getD []).contains ((a.dtstart.hh * 60 + a.dtstart.mm + (j : Int) * a.interval) / 60 % 24)) = true
 instance (a : Args) : Decidable (reachableHourM a) := by unfold reachableHourM; exact inferInstance
+
+/-- SECONDLY with BYHOUR and / or BYMINUTE (no BYSECOND): some second of the grid (orbit of the start under `+INTERVAL`,
+    which repeats after at most 86400 steps) falls in a listed hour (when BYHOUR is given) and a listed minute (when
+    BYMINUTE is given).  On the complement the recurrence set is empty and `_iter` raises ValueError at the first `next()`. -/
+def reachableS (a : Args) : Prop :=
+  (List.range 86400).any (fun j =>
+    (a.byhour.isNone || (a.byhour.getD []).contains
+      (((a.dtstart.hh * 60 + a.dtstart.mm) * 60 + a.dtstart.ss + (j : Int) * a.interval) / 3600 % 24)) &&
+    (a.byminute.isNone || (a.byminute.getD []).contains
+      (((a.dtstart.hh * 60 + a.dtstart.mm) * 60 + a.dtstart.ss + (j : Int) * a.interval) / 60 % 60))) = true
+instance (a : Args) : Decidable (reachableS a) := by unfold reachableS; exact inferInstance
+
+/-- an absent BY list allows every value -/
+def listedO (o : Option (List Int)) (x : Int) : Bool := o.isNone || (o.getD []).contains x
+
+/-- hour, minute and second all pass their (optional) BY lists -/
+def listed3 (a : Args) (h m s : Int) : Bool :=
+  listedO a.byhour h && listedO a.byminute m && listedO a.bysecond s
+
+/-- SECONDLY with BYSECOND (BYHOUR, BYMINUTE optional): some second of the grid (orbit of the start under `+INTERVAL`,
+    which repeats after at most 86400 steps) has listed hour, minute and second.  With `a.bysecond = none` this is
+    `reachableS a`.  On the complement the recurrence set is empty (and `_iter` raises ValueError at the first `next()`). -/
+def reachableSS (a : Args) : Prop :=
+  (List.range 86400).any (fun j =>
+    listed3 a
+      (((a.dtstart.hh * 60 + a.dtstart.mm) * 60 + a.dtstart.ss + (j : Int) * a.interval) / 3600 % 24)
+      (((a.dtstart.hh * 60 + a.dtstart.mm) * 60 + a.dtstart.ss + (j : Int) * a.interval) / 60 % 60)
+      (((a.dtstart.hh * 60 + a.dtstart.mm) * 60 + a.dtstart.ss + (j : Int) * a.interval) % 60)) = true
+instance (a : Args) : Decidable (reachableSS a) := by unfold reachableSS; exact inferInstance
+
+/-- MINUTELY with BYMINUTE (BYHOUR optional): some minute of the grid (orbit of the start under `+INTERVAL`, which repeats
+    after at most 1440 steps) has a listed hour and a listed minute -/
+def reachableMM (a : Args) : Prop :=
+  (List.range 1440).any (fun j =>
+    listedO a.byhour ((a.dtstart.hh * 60 + a.dtstart.mm + (j : Int) * a.interval) / 60 % 24) &&
+    listedO a.byminute ((a.dtstart.hh * 60 + a.dtstart.mm + (j : Int) * a.interval) % 60)) = true
+instance (a : Args) : Decidable (reachableMM a) := by unfold reachableMM; exact inferInstance
+
+/-- BYEASTER given, non-empty, on the complement of D-C01d -/
+def easterOk (a : Args) : Prop := someWith a.byeaster (fun el => ∀ o ∈ el, -80 ≤ o ∧ o ≤ 250)
+instance (a : Args) : Decidable (easterOk a) := by unfold easterOk; exact inferInstance
+
+/-- the common part of the BYEASTER-below-YEARLY families: INTERVAL ≥ 1, valid start, no zero in BYMONTHDAY, no BYWEEKNO,
+    BYEASTER −80..250 -/
+def ebaseOk (a : Args) : Prop := baseOk a ∧ a.byweekno = none ∧ easterOk a
+instance (a : Args) : Decidable (ebaseOk a) := by unfold ebaseOk; exact inferInstance
+
+/-- a BY list is absent or given and non-empty -/
+def optNonempty (o : Option (List Int)) : Prop := o = none ∨ someWith o (fun _ => True)
+instance (o : Option (List Int)) : Decidable (optNonempty o) := by unfold optNonempty; exact inferInstance
 
 /-- **the families with an exactness theorem** -/
 def SupportedBy (a : Args) : Family → Prop
@@ -95,6 +163,9 @@ def SupportedBy (a : Args) : Family → Prop
       (0 ≤ a.wkst.getD 0 ∧ a.wkst.getD 0 ≤ 6) ∧ someWith a.byweekno wnoOk
   | .monthlyWeekno => a.freq = 1 ∧ baseOk a ∧ a.byeaster = none ∧ plainDays a ∧
       (0 ≤ a.wkst.getD 0 ∧ a.wkst.getD 0 ≤ 6) ∧ someWith a.byweekno wnoOk
+  | .weeklyWeekno => a.freq = 2 ∧ baseOk a ∧ a.byeaster = none ∧ someWith a.byweekno wnoOk ∧
+      (a.bysetpos = none ∨ Cal.weekdayOfOrd (Spec.RRule.startOrd a) = a.wkst.getD 0) ∧
+      (0 ≤ a.wkst.getD 0 ∧ a.wkst.getD 0 ≤ 6) ∧ untilOk a
   | .hourly => a.freq = 4 ∧ baseOk a ∧ wArgOk a ∧ a.byeaster = none ∧ a.byhour = none ∧
       minutesOk a ∧ secondsOk a
   | .hourlyByhour => a.freq = 4 ∧ baseOk a ∧ wArgOk a ∧ a.byeaster = none ∧
@@ -105,8 +176,46 @@ def SupportedBy (a : Args) : Family → Prop
       someWith a.byminute (fun l => ∀ x ∈ l, 0 ≤ x ∧ x ≤ 59) ∧ secondsOk a
   | .minutelyByhour => a.freq = 5 ∧ baseOk a ∧ wArgOk a ∧ a.byeaster = none ∧
       someWith a.byhour (fun _ => True) ∧ a.byminute = none ∧ secondsOk a ∧ reachableHourM a
+  | .minutelyByhm => a.freq = 5 ∧ baseOk a ∧ wArgOk a ∧ a.byeaster = none ∧ optNonempty a.byhour ∧
+      a.byminute ≠ none ∧ secondsOk a ∧ reachableMM a
   | .secondly => a.freq = 6 ∧ baseOk a ∧ wArgOk a ∧ a.byeaster = none ∧ a.byhour = none ∧
       a.byminute = none ∧ a.bysecond = none
+  | .secondlyByhm => a.freq = 6 ∧ baseOk a ∧ wArgOk a ∧ a.byeaster = none ∧ optNonempty a.byhour ∧
+      optNonempty a.byminute ∧ a.bysecond = none ∧ reachableS a
+  | .secondlyBysecond => a.freq = 6 ∧ baseOk a ∧ wArgOk a ∧ a.byeaster = none ∧ optNonempty a.byhour ∧
+      optNonempty a.byminute ∧ a.bysecond ≠ none ∧ reachableSS a
+
+  | .dailyE => a.freq = 3 ∧ ebaseOk a
+  | .hourlyE => a.freq = 4 ∧ ebaseOk a ∧ a.byhour = none ∧ minutesOk a ∧ secondsOk a
+  | .hourlyByhourE => a.freq = 4 ∧ ebaseOk a ∧ someWith a.byhour (fun l => ∀ x ∈ l, 0 ≤ x ∧ x ≤ 23) ∧ minutesOk a ∧ secondsOk a
+  | .minutelyE => a.freq = 5 ∧ ebaseOk a ∧ a.byhour = none ∧ a.byminute = none ∧ secondsOk a
+  | .minutelyByminuteE => a.freq = 5 ∧ ebaseOk a ∧ a.byhour = none ∧
+      someWith a.byminute (fun l => ∀ x ∈ l, 0 ≤ x ∧ x ≤ 59) ∧ secondsOk a
+  | .minutelyByhourE => a.freq = 5 ∧ ebaseOk a ∧ someWith a.byhour (fun _ => True) ∧ a.byminute = none ∧ secondsOk a ∧
+      reachableHourM a
+  | .minutelyByhmE => a.freq = 5 ∧ ebaseOk a ∧ optNonempty a.byhour ∧ a.byminute ≠ none ∧ secondsOk a ∧ reachableMM a
+  | .secondlyE => a.freq = 6 ∧ ebaseOk a ∧ a.byhour = none ∧ a.byminute = none ∧ a.bysecond = none
+  | .secondlyByhmE => a.freq = 6 ∧ ebaseOk a ∧ optNonempty a.byhour ∧ optNonempty a.byminute ∧ a.bysecond = none ∧
+      reachableS a
+  | .secondlyBysecondE => a.freq = 6 ∧ ebaseOk a ∧ optNonempty a.byhour ∧ optNonempty a.byminute ∧ a.bysecond ≠ none ∧
+      reachableSS a
+  | .monthlyEaster => a.freq = 1 ∧ ebaseOk a ∧ plainDays a
+  | .weeklyEaster => a.freq = 2 ∧ baseOk a ∧ a.byweekno = none ∧
+      someWith a.byeaster (fun el => ∀ o ∈ el, -74 ≤ o ∧ o ≤ 250) ∧
+      (a.bysetpos = none ∨ Cal.weekdayOfOrd (Spec.RRule.startOrd a) = a.wkst.getD 0) ∧
+      (0 ≤ a.wkst.getD 0 ∧ a.wkst.getD 0 ≤ 6) ∧ untilOk a
+  | .monthlyNthWeekno => a.freq = 1 ∧ baseOk a ∧ a.byeaster = none ∧ nthDays a ∧
+      (0 ≤ a.wkst.getD 0 ∧ a.wkst.getD 0 ≤ 6) ∧ someWith a.byweekno wnoOk
+  | .yearlyNthWeekno => a.freq = 0 ∧ baseOk a ∧ a.byeaster = none ∧ a.bymonth = none ∧ nthDays a ∧
+      (0 ≤ a.wkst.getD 0 ∧ a.wkst.getD 0 ≤ 6) ∧ someWith a.byweekno wnoOk
+  | .yearlyBymonthNthWeekno => a.freq = 0 ∧ baseOk a ∧ a.byeaster = none ∧
+      someWith a.bymonth (fun lm => ∀ m ∈ lm, 1 ≤ m ∧ m ≤ 12) ∧ nthDays a ∧
+      (0 ≤ a.wkst.getD 0 ∧ a.wkst.getD 0 ≤ 6) ∧ someWith a.byweekno wnoOk
+  | .monthlyNthEaster => a.freq = 1 ∧ ebaseOk a ∧ nthDays a
+  | .yearlyNthEaster => a.freq = 0 ∧ ebaseOk a ∧ a.bymonth = none ∧ nthDays a
+  | .yearlyBymonthNthEaster => a.freq = 0 ∧ ebaseOk a ∧ someWith a.bymonth (fun lm => ∀ m ∈ lm, 1 ≤ m ∧ m ≤ 12) ∧ nthDays a
+  | .yearlyWeeknoEaster => a.freq = 0 ∧ baseOk a ∧ plainDays a ∧ (0 ≤ a.wkst.getD 0 ∧ a.wkst.getD 0 ≤ 6) ∧
+      someWith a.byweekno wnoOk ∧ easterOk a
 
 instance (a : Args) (f : Family) : Decidable (SupportedBy a f) := by
   cases f <;> (unfold SupportedBy; exact inferInstance)
@@ -119,17 +228,20 @@ def Supported (a : Args) : Prop := ∃ f, SupportedBy a f
 
 /-- how many periods of the specification `n` turns of the generator's loop may correspond to -/
 def Family.periodsPerTurn : Family → Nat
-  | .hourly => 24 | .hourlyByhour => 48 | .minutely => 1440 | .minutelyByminute => 1500 | .minutelyByhour => 2880 | .secondly => 86400 | _ => 1
+  | .hourly => 24 | .hourlyByhour => 48 | .minutely => 1440 | .minutelyByminute => 1500 | .minutelyByhour => 2880 | .minutelyByhm => 2880 | .secondly => 86400
+  | .secondlyByhm => 172800 | .secondlyBysecond => 172800
+  | .hourlyE => 24 | .hourlyByhourE => 48 | .minutelyE => 1440 | .minutelyByminuteE => 1500 | .minutelyByhourE => 2880
+  | .minutelyByhmE => 2880 | .secondlyE => 86400 | .secondlyByhmE => 172800 | .secondlyBysecondE => 172800 | _ => 1
 
 /-- the first `n` turns stay inside datetime's range (for BYEASTER: inside 1583..4099) -/
 def inRange (a : Args) (f : Family) (n : Nat) : Prop :=
   match f with
   | .daily => Spec.RRule.startOrd a + n * a.interval ≤ Cal.maxOrdinal
-  | .weekly => Spec.RRule.weekStart (a.wkst.getD 0) (Spec.RRule.startOrd a) + 7 * (n * a.interval) + 7 ≤ Cal.maxOrdinal + 1
+  | .weekly | .weeklyWeekno => Spec.RRule.weekStart (a.wkst.getD 0) (Spec.RRule.startOrd a) + 7 * (n * a.interval) + 7 ≤ Cal.maxOrdinal + 1
   | .yearlyMonthly => (a.freq = 0 → a.dtstart.y + n * a.interval ≤ 9999) ∧
       (a.freq = 1 → (a.dtstart.y * 12 + (a.dtstart.m - 1) + n * a.interval) / 12 ≤ 9999)
-  | .monthlyNth | .monthlyWeekno => (a.dtstart.y * 12 + (a.dtstart.m - 1) + n * a.interval) / 12 ≤ 9999
-  | .yearlyNth | .yearlyBymonthNth | .yearlyWeekno => a.dtstart.y + n * a.interval ≤ 9999
+  | .monthlyNth | .monthlyWeekno | .monthlyNthWeekno => (a.dtstart.y * 12 + (a.dtstart.m - 1) + n * a.interval) / 12 ≤ 9999
+  | .yearlyNth | .yearlyBymonthNth | .yearlyWeekno | .yearlyNthWeekno | .yearlyBymonthNthWeekno => a.dtstart.y + n * a.interval ≤ 9999
   | .yearlyEaster => 1583 ≤ a.dtstart.y ∧ a.dtstart.y + n * a.interval ≤ 4099
   | .hourly => Spec.RRule.startOrd a * 24 + a.dtstart.hh + (24 * n + 1) * a.interval + 23 < (Cal.maxOrdinal + 1) * 24
   | .hourlyByhour =>
@@ -139,10 +251,38 @@ def inRange (a : Args) (f : Family) (n : Nat) : Prop :=
   | .minutelyByminute =>
       (Spec.RRule.startOrd a * 24 + a.dtstart.hh) * 60 + a.dtstart.mm + (1500 * n + 60) * a.interval + 1439 <
       (Cal.maxOrdinal + 1) * 1440
-  | .minutelyByhour =>
+  | .minutelyByhour | .minutelyByhm =>
       (Spec.RRule.startOrd a * 24 + a.dtstart.hh) * 60 + a.dtstart.mm + (2880 * n + 1440) * a.interval + 1439 <
       (Cal.maxOrdinal + 1) * 1440
   | .secondly => ((Spec.RRule.startOrd a * 24 + a.dtstart.hh) * 60 + a.dtstart.mm) * 60 + a.dtstart.ss +
       (86400 * n + 1) * a.interval + 86399 < (Cal.maxOrdinal + 1) * 86400
+  | .secondlyByhm | .secondlyBysecond => ((Spec.RRule.startOrd a * 24 + a.dtstart.hh) * 60 + a.dtstart.mm) * 60 + a.dtstart.ss +
+      (172800 * n + 86400) * a.interval + 86399 < (Cal.maxOrdinal + 1) * 86400
+  | .dailyE => 1583 ≤ a.dtstart.y ∧ Spec.RRule.startOrd a + n * a.interval ≤ Cal.toOrdinal 4099 12 31
+  | .hourlyE => 1583 ≤ a.dtstart.y ∧
+      Spec.RRule.startOrd a * 24 + a.dtstart.hh + (24 * n + 1) * a.interval + 23 < (Cal.toOrdinal 4099 12 31 + 1) * 24
+  | .hourlyByhourE => 1583 ≤ a.dtstart.y ∧
+      Spec.RRule.startOrd a * 24 + a.dtstart.hh + (48 * n + 24) * a.interval + 23 < (Cal.toOrdinal 4099 12 31 + 1) * 24
+  | .minutelyE => 1583 ≤ a.dtstart.y ∧
+      (Spec.RRule.startOrd a * 24 + a.dtstart.hh) * 60 + a.dtstart.mm + (1440 * n + 1) * a.interval + 1439 < (Cal.toOrdinal 4099 12 31 + 1) * 1440
+  | .minutelyByminuteE => 1583 ≤ a.dtstart.y ∧
+      (Spec.RRule.startOrd a * 24 + a.dtstart.hh) * 60 + a.dtstart.mm + (1500 * n + 60) * a.interval + 1439 < (Cal.toOrdinal 4099 12 31 + 1) * 1440
+  | .minutelyByhourE | .minutelyByhmE => 1583 ≤ a.dtstart.y ∧
+      (Spec.RRule.startOrd a * 24 + a.dtstart.hh) * 60 + a.dtstart.mm + (2880 * n + 1440) * a.interval + 1439 < (Cal.toOrdinal 4099 12 31 + 1) * 1440
+  | .secondlyE => 1583 ≤ a.dtstart.y ∧ ((Spec.RRule.startOrd a * 24 + a.dtstart.hh) * 60 + a.dtstart.mm) * 60 + a.dtstart.ss +
+      (86400 * n + 1) * a.interval + 86399 < (Cal.toOrdinal 4099 12 31 + 1) * 86400
+  | .secondlyByhmE | .secondlyBysecondE => 1583 ≤ a.dtstart.y ∧
+      ((Spec.RRule.startOrd a * 24 + a.dtstart.hh) * 60 + a.dtstart.mm) * 60 + a.dtstart.ss +
+      (172800 * n + 86400) * a.interval + 86399 < (Cal.toOrdinal 4099 12 31 + 1) * 86400
+  | .monthlyEaster | .monthlyNthEaster => 1583 ≤ a.dtstart.y ∧ (a.dtstart.y * 12 + (a.dtstart.m - 1) + n * a.interval) / 12 ≤ 4099
+  | .weeklyEaster => 1583 ≤ a.dtstart.y ∧
+      Spec.RRule.weekStart (a.wkst.getD 0) (Spec.RRule.startOrd a) + 7 * (n * a.interval) + 7 ≤ Cal.toOrdinal 4099 12 31 + 1
+  | .yearlyNthEaster | .yearlyBymonthNthEaster | .yearlyWeeknoEaster => 1583 ≤ a.dtstart.y ∧ a.dtstart.y + n * a.interval ≤ 4099
+
+/-- the BYEASTER-below-YEARLY families -/
+def Family.isEasterSub : Family → Bool
+  | .dailyE | .hourlyE | .hourlyByhourE | .minutelyE | .minutelyByminuteE | .minutelyByhourE | .minutelyByhmE
+  | .secondlyE | .secondlyByhmE | .secondlyBysecondE | .monthlyEaster | .weeklyEaster => true
+  | _ => false
 
 end RRule
